@@ -108,6 +108,11 @@ def configs(tier):
             if key == "sonar" and sh in ("second-file", "unparseable-sibling"):
                 continue  # the result file names app.py only
             out.append((key, (1, 0, 0, 0), (f"shape:{sh}",)))
+    for key in CODEMODS:
+        for c in ((1, 0, 0, 0), (0, 1, 0, 0), (0, 0, 1, 0), (0, 0, 0, 1), (0, 0, 0, 0)) if key.startswith("dep-") else ((1, 0, 0, 0),):
+            out.append(("history", key, c, 1))
+            if tier == "thorough":
+                out.append(("history", key, c, 2))
     if tier == "thorough":
         for key in CODEMODS:
             for sh in SHAPES:
@@ -212,7 +217,35 @@ def judge(cfg, dry, real):
     return out, nontrivial
 
 
+def eval_history(cfg):
+    """One process, one project path: a dry run (or two) followed by the real run - the dry run must still predict it, and the
+    real run must do what it does in a fresh state."""
+    _, cm_key, combo, n_dry = cfg
+    dry_job, real_job = jobs_for((cm_key, combo, ()))
+    seq = drive.run_inproc(drive.Job(files=real_job.files, argv=real_job.argv, argv_seq=[dry_job.argv] * n_dry + [real_job.argv], results=real_job.results))
+    alone = drive.run_inproc(real_job)
+    for o in (seq, alone):
+        if o.error:
+            raise core.HarnessError(o.error)
+    out = []
+    tag = f"history|{cm_key}"
+    if any(e != 0 for e in seq.exits) or alone.exit != 0:
+        return [(f"{tag}|exit", f"exits {seq.exits} / alone {alone.exit}")], False
+    for k in range(n_dry):
+        if seq.after[k] != seq.before:
+            out.append((f"{tag}|dry-run-modified", f"dry run #{k + 1} modified the project"))
+    d = first_diff(norm(seq.reports[0]), norm(seq.reports[-1]))
+    if d:
+        out.append((f"{tag}|dry-run-does-not-predict-the-following-real-run", f"report of the dry run and of the real run that follows it in the same process differ at {d}"))
+    d = first_diff(norm(seq.reports[-1]), norm(alone.report))
+    if d or seq.after[-1] != alone.final:
+        out.append((f"{tag}|real-run-after-dry-run-differs-from-real-run-alone", f"the real run after {n_dry} dry run(s) differs from the same run in a fresh state at {d or 'the project tree'}"))
+    return out, alone.final != alone.before
+
+
 def eval_cfg(cfg):
+    if cfg[0] == "history":
+        return eval_history(cfg)
     dry_job, real_job = jobs_for(cfg)
     dry, real = drive.run_inproc(dry_job), drive.run_inproc(real_job)
     for o in (dry, real):
@@ -222,6 +255,8 @@ def eval_cfg(cfg):
 
 
 def eval_cfg_cli(cfg):
+    if cfg[0] == "history":
+        return eval_history(cfg)  # a history inside one process cannot go through the console script
     dry_job, real_job = jobs_for(cfg)
     dry, real = drive.run_cli(dry_job), drive.run_cli(real_job)
     for o in (dry, real):
@@ -240,7 +275,7 @@ def explore(tier, seed):
         nontrivial += bool(nt)
         for sig, detail in found:
             c = cands.get(sig)
-            key = (len(cfg[2]), sum(1 for i in cfg[1] if i), cfg)
+            key = (0, 0, cfg) if cfg[0] == "history" else (len(cfg[2]), sum(1 for i in cfg[1] if i), cfg)
             if c is None or key < c[0]:
                 cands[sig] = (key, cfg, detail)
     known_open = {k["signature"] for k in core.load_known() if k["property"] == PROP and k["status"] == "open"}
@@ -252,7 +287,8 @@ def explore(tier, seed):
             if sig not in s1 or sig not in s2:
                 divergence.append(sig)
                 continue
-        violations.append(Violation(PROP, sig, f"{cfg}: {detail}"[:600], {"cfg": [cfg[0], list(cfg[1]), list(cfg[2])], "sig": sig}, key[0] + key[1]))
+        rp_cfg = [cfg[0], cfg[1], list(cfg[2]), cfg[3]] if cfg[0] == "history" else [cfg[0], list(cfg[1]), list(cfg[2])]
+        violations.append(Violation(PROP, sig, f"{cfg}: {detail}"[:600], {"cfg": rp_cfg, "sig": sig}, key[0] + key[1]))
     # conformance of the in-process driver: three fixed configurations through the console script
     conf = 0
     for cfg in configs("quick")[:3]:
@@ -261,11 +297,12 @@ def explore(tier, seed):
             raise core.HarnessError(f"in-process and CLI drivers disagree on {cfg}: {a} vs {b}")
         conf += 1
     coverage = {
-        "states": len({(c[0], c[1]) for c in cfgs}) * 2,
+        "states": len({(c[0], c[1]) if c[0] != "history" else c for c in cfgs}) * 2,
         "transitions": 2 * len(cfgs),
         "traces_validated_against_impl": len(cfgs) + conf,
         "exhaustive": True,
-        "samples": [{"codemod_kind": c[0], "manifests(req,cfg,pyproject,setup.py)": list(c[1]), "options": list(c[2])} for c in cfgs[:3]],
+        "samples": [{"codemod_kind": c[0], "manifests(req,cfg,pyproject,setup.py)": list(c[1]), "options": list(c[2])} for c in [x for x in cfgs if x[0] != "history"][:3]],
+        "in_process_histories": sum(1 for c in cfgs if c[0] == "history"),
         "configurations": len(cfgs),
         "real_run_changed_something": nontrivial,
         "manifest_combinations": len(list(manifest_combos())),
@@ -286,6 +323,9 @@ def explore(tier, seed):
 
 
 def replay(rp):
+    if rp["cfg"][0] == "history":
+        found, _ = eval_history(("history", rp["cfg"][1], tuple(rp["cfg"][2]), rp["cfg"][3]))
+        return (rp["sig"] not in {s for s, _ in found}), "\n".join(f"{s}: {d}" for s, d in found) or "the dry run predicted the real run that followed it"
     cfg = (rp["cfg"][0], tuple(rp["cfg"][1]), tuple(rp["cfg"][2]))
     found, _ = eval_cfg_cli(cfg)
     return (rp["sig"] not in {s for s, _ in found}), "\n".join(f"{s}: {d}" for s, d in found) or "dry run left the tree alone and predicted the real report"
